@@ -119,6 +119,15 @@ def damaged(case):
         else:
             b[i] = v
         return bytes(b), args
+    if d == "corrupt+tail":
+        # two faults together: a header / control byte raised, and surplus data behind the picture (a copy of the file's
+        # own last part, so that it decodes like picture data): a count that claims more than the picture holds finds food
+        b = bytearray(data)
+        i = case["pos"]
+        v = case["val"]
+        b[i] = (b[i] + 1) & 255 if v == "+1" else v
+        tail = bytes(data[-min(len(data) // 2, 6000):])
+        return bytes(b) + tail * 3, args
     if d == "append":
         rng = random.Random(case["pos"])
         return data + bytes(rng.randrange(256) for _ in range(case["pos"])), args
@@ -185,6 +194,9 @@ def cases(tier, seed):
                     n += 1
                     yield {"fmt": fmt, "variant": variant, "damage": "corrupt", "pos": pos, "val": val,
                            "sample": n % 500 == 1}
+            for pos in (cpos if len(cpos) <= 60 else cpos[:40] + cpos[-8:]):
+                for val in ("+1", 255, 200):
+                    yield {"fmt": fmt, "variant": variant, "damage": "corrupt+tail", "pos": pos, "val": val}
             for k in (1, 2, 17, 1000):
                 yield {"fmt": fmt, "variant": variant, "damage": "append", "pos": k}
             for k in range(6 if q else 60):
